@@ -10,6 +10,8 @@ CONSTANTS
   N4 = 3
   A5 = {"0", "1", "9", "+", "-", "_"}
   N5 = 6
+  A6 = {"1", "0", "9", ".", "e9999", "e-9999"}
+  N6 = 4
   MAX = 32767
   MaxDigits <- Int64MaxDigits
   Extra <- BoundaryInts
